@@ -162,6 +162,12 @@ class GeckoAsyncSpa(Observable):
             family=socket.AF_INET,
         )
         assert isinstance(_protocol, GeckoAsyncUdpProtocol)
+        if self._disconnected:
+            # disconnect() ran while the endpoint was being created, so it had
+            # nothing to close yet, and nobody would close this one later
+            self._transport.close()
+            self._transport = None
+            return
         self._protocol = _protocol
         await asyncio.sleep(GeckoConstants.CONNECTION_STEP_PAUSE_IN_SECONDS)
 
